@@ -4,6 +4,8 @@
 package vf
 
 import (
+	"bytes"
+	"context"
 	"crypto/sha256"
 	"encoding/binary"
 	"encoding/hex"
@@ -11,6 +13,7 @@ import (
 	"fmt"
 	"hash/fnv"
 	"os"
+	"os/exec"
 	"path/filepath"
 	"regexp"
 	"runtime/debug"
@@ -113,6 +116,58 @@ type Run struct {
 	journal   string
 	outPath   string
 	lastFail  *ReplayFile
+
+	// confirmFresh: a failing case counts only if it also fails in a fresh process
+	// (see ConfirmFresh); unconfirmed holds the first one that did not.
+	confirmFresh bool
+	unconfirmed  *ReplayFile
+	nconfirm     int
+}
+
+// ConfirmFresh makes Judge re-run every failing case in a fresh child process
+// (the same test binary in replay mode) before it counts. For lanes whose
+// property is a statement about one case: code under test that keeps state across
+// calls in one process can make a case fail only because of the cases before it.
+// Such a failure cannot be replayed from its case alone, and reported first it
+// would hide a failure of the same cause that can (the search stops at the first).
+// It is not dropped: if the lane ends without a confirmed failure, the first
+// unconfirmed one is committed, and the driver's own replay then reports the run
+// as inconclusive, exactly as without this option.
+func (r *Run) ConfirmFresh() { r.confirmFresh = true }
+
+func (r *Run) failsFresh(c any, rest []Failure) bool {
+	if os.Getenv("VERIF_REPLAY") != "" || os.Getenv("VERIF_NO_CONFIRM") == "1" {
+		return true
+	}
+	b, _ := json.Marshal(c)
+	rf := &ReplayFile{Property: r.Prop, Lane: r.Lane, Keys: []string{rest[0].Key}, Detail: rest[0].Detail, Case: b}
+	out, _ := json.Marshal(rf)
+	r.mu.Lock()
+	r.nconfirm++
+	n := r.nconfirm
+	r.mu.Unlock()
+	tmp := fmt.Sprintf("%s.confirm-%d-%d.json", strings.TrimSuffix(r.outPath, ".json"), os.Getpid(), n)
+	if err := os.WriteFile(tmp, out, 0o644); err != nil {
+		return true
+	}
+	defer os.Remove(tmp)
+	ctx, cancel := context.WithTimeout(context.Background(), 10*time.Minute)
+	defer cancel()
+	cmd := exec.CommandContext(ctx, os.Args[0], "-test.run", "^TestReplay$", "-test.count=1")
+	cmd.Env = append(os.Environ(), "VERIF_REPLAY="+tmp)
+	res, err := cmd.CombinedOutput()
+	if err == nil && bytes.Contains(res, []byte("REPLAY-OK ")) {
+		r.mu.Lock()
+		r.classes["failed-only-after-earlier-cases"]++
+		if r.unconfirmed == nil {
+			r.unconfirmed = &ReplayFile{Property: r.Prop, Lane: r.Lane, Keys: []string{rest[0].Key}, Detail: rest[0].Detail, Case: b}
+			r.notes = append(r.notes, "a case failed in this process but not in a fresh one (state kept across cases): ["+rest[0].Key+"] "+oneLine(rest[0].Detail))
+		}
+		r.mu.Unlock()
+		return false
+	}
+	// anything else - it fails there too, it crashes, it cannot be run - counts
+	return true
 }
 
 func envInt(k string, d int) int {
@@ -341,6 +396,9 @@ func (r *Run) Judge(t TB, c any, fails []Failure) {
 		}
 		return
 	}
+	if r.confirmFresh && !strings.HasPrefix(rest[0].Key, "hang|") && !r.failsFresh(c, rest) {
+		return
+	}
 	r.recordFail(c, rest)
 	r.exitIfHung(rest)
 	t.Fatalf("%s/%s: %d failure(s); first: [%s] %s", r.Prop, r.Lane, len(rest), rest[0].Key, rest[0].Detail)
@@ -396,6 +454,9 @@ func (r *Run) recordFail(c any, rest []Failure) {
 func (r *Run) Commit() {
 	r.mu.Lock()
 	defer r.mu.Unlock()
+	if r.lastFail == nil && len(r.viol) == 0 && r.unconfirmed != nil {
+		r.lastFail, r.unconfirmed = r.unconfirmed, nil
+	}
 	if r.lastFail == nil {
 		return
 	}
